@@ -12,6 +12,10 @@ pub struct Out {
     pub only: std::collections::HashSet<String>,
     /// … with this many additional random inputs per probe set
     pub boost: usize,
+    /// … and these explicit raw values / written values added to every probe set (distinguishing inputs proposed by
+    /// the normaliser for bodies whose normal form differs from the model's)
+    pub extra_raws: Vec<u128>,
+    pub extra_vals: Vec<u128>,
 }
 impl Out {
     pub fn wants(&self, name: &str) -> bool { self.only.is_empty() || self.only.contains(name) }
@@ -95,6 +99,7 @@ pub fn raws(n: u32, o: &Out) -> Vec<u128> {
     v.push(m & !(1u128 << (n - 1)));
     let mut r = Rng::new(seed, n as u64);
     for _ in 0..(6 + o.boost) { v.push(r.next128() & m); }
+    for x in &o.extra_raws { v.push(*x & m); }
     dedup(v)
 }
 /// backgrounds for writes
@@ -104,6 +109,7 @@ pub fn wraws(n: u32, o: &Out) -> Vec<u128> {
     let mut r = Rng::new(seed, 1000 + n as u64);
     let mut v = vec![0, m, r.next128() & m, r.next128() & m];
     for _ in 0..(o.boost / 16) { v.push(r.next128() & m); }
+    for x in &o.extra_raws { v.push(*x & m); }
     dedup(v)
 }
 /// value patterns for an n-bit field
@@ -116,6 +122,7 @@ pub fn vals(n: u32, o: &Out) -> Vec<u128> {
     while k < n { v.push(1u128 << k); k += step; }
     let mut r = Rng::new(seed, 2000 + n as u64);
     for _ in 0..(3 + o.boost / 16) { v.push(r.next128() & m); }
+    for x in &o.extra_vals { v.push(*x & m); }
     dedup(v)
 }
 pub fn small_range(n: u32) -> Vec<u128> { (0..n as u128).collect() }
